@@ -28,6 +28,65 @@ use verif_harness::world::*;
 
 type H32 = [u8; 32];
 
+// ---------------------------------------------------------------- the lite-block route (extracted source)
+
+/// The body of the `/lite-block/<hash>/<key>` closure of saito-rust/src/network_controller.rs,
+/// cut out of the source by build.rs and compiled here as `lite_route_body`, with stand-ins for
+/// the three names it takes from outside saito-core (`warp`, `StatusCode`, `BLOCKS_DIR_PATH`).
+#[allow(unused_imports, unused_variables, unused_mut, dead_code, clippy::all)]
+mod lite_route {
+    use std::fs;
+    use std::sync::Arc;
+
+    use log::{debug, error, info, trace, warn};
+    use saito_core::core::consensus::block::{Block, BlockType};
+    use saito_core::core::consensus::peers::peer_collection::PeerCollection;
+    use saito_core::core::defs::{PrintForLog, SaitoPublicKey, BLOCK_FILE_EXTENSION};
+    use tokio::fs::File;
+    use tokio::io::AsyncReadExt;
+    use tokio::sync::RwLock;
+
+    pub mod warp {
+        #[derive(Debug, Clone, Copy, PartialEq, Eq)]
+        pub enum Rejection {
+            Reject,
+            NotFound,
+        }
+        pub mod reject {
+            pub fn reject() -> super::Rejection {
+                super::Rejection::Reject
+            }
+            pub fn not_found() -> super::Rejection {
+                super::Rejection::NotFound
+            }
+        }
+        pub mod reply {
+            pub struct Reply {
+                pub body: Vec<u8>,
+                pub status: u16,
+            }
+            pub fn with_status(body: Vec<u8>, status: super::super::StatusCode) -> Reply {
+                Reply { body, status: status.0 }
+            }
+        }
+    }
+    pub struct StatusCode(pub u16);
+    impl StatusCode {
+        pub const OK: StatusCode = StatusCode(200);
+    }
+    /// stands in for the lazy_static String of rust_io_handler.rs
+    pub struct DirPath;
+    pub static DIR: std::sync::Mutex<String> = std::sync::Mutex::new(String::new());
+    impl std::fmt::Display for DirPath {
+        fn fmt(&self, f: &mut std::fmt::Formatter<'_>) -> std::fmt::Result {
+            write!(f, "{}", DIR.lock().unwrap())
+        }
+    }
+    pub static BLOCKS_DIR_PATH: DirPath = DirPath;
+
+    include!(concat!(env!("OUT_DIR"), "/lite_route.rs"));
+}
+
 // ---------------------------------------------------------------- panics
 
 static LAST_PANIC: Mutex<Option<(String, String)>> = Mutex::new(None);
@@ -798,6 +857,7 @@ fn write_shards_with_defs(
     case_type: &str,
     cases: &[String],
     shards: usize,
+    first_index: usize,
 ) -> std::io::Result<Vec<String>> {
     use std::io::Write as _;
     std::fs::create_dir_all(dir)?;
@@ -858,7 +918,7 @@ fn write_shards_with_defs(
                 writeln!(f, ";")?;
             }
             first = false;
-            write!(f, "({}, {})", i, c)?;
+            write!(f, "({}, {})", i + first_index, c)?;
         }
         writeln!(f, "].")?;
         writeln!(
@@ -869,6 +929,262 @@ fn write_shards_with_defs(
         files.push(path);
     }
     Ok(files)
+}
+
+// ---------------------------------------------------------------- route cases
+
+fn opt_n(x: Option<u64>) -> String {
+    match x {
+        Some(v) => format!("(Some {})", v),
+        None => "None".to_string(),
+    }
+}
+
+/// Runs the extracted route body on a scratch blocks directory holding real chain blocks, for
+/// key segments of every decoding class, requesters with and without a peer entry, and hash
+/// segments that match one file / no file / a broken file.  Returns the Coq cases (their
+/// descriptions are appended to the summary in the same order).
+async fn route_cases(
+    ctx: &mut Ctx,
+    args: &Args,
+    blocks: &[(String, Block)],
+    node: &Node,
+    tk: &[(SaitoPublicKey, saito_core::core::defs::SaitoPrivateKey)],
+    fk: &[(SaitoPublicKey, saito_core::core::defs::SaitoPrivateKey)],
+    rng: &mut Rng,
+) -> Vec<String> {
+    use lite_route::warp::Rejection;
+    use saito_core::core::consensus::peers::peer::Peer;
+    use saito_core::core::consensus::peers::peer_collection::PeerCollection;
+    use saito_core::core::defs::PrintForLog;
+    use std::sync::Arc;
+    use tokio::sync::RwLock;
+
+    let mut out = vec![];
+    let first_case = ctx.coq_cases.len();
+    if !lite_route::LITE_ROUTE_EXTRACTED {
+        ctx.summary.oracle_failure(
+            first_case,
+            "the lite-block route closure was not found in saito-rust/src/network_controller.rs (harness/build.rs): the route is not checked",
+            &format!("{{\"case\":{},\"kind\":\"route\",\"source\":{}}}", first_case, jstr(lite_route::LITE_ROUTE_SOURCE)),
+        );
+        return out;
+    }
+    // scratch directory with real chain blocks, named as Block::get_file_name does
+    let dir = format!("{}/blocks/", args.out);
+    let _ = std::fs::remove_dir_all(&dir);
+    std::fs::create_dir_all(&dir).unwrap();
+    let stored: Vec<&Block> = blocks
+        .iter()
+        .filter(|(n, b)| n.starts_with("chain") && b.transactions.len() >= 3)
+        .map(|(_, b)| b)
+        .take(5)
+        .collect();
+    if stored.len() < 2 {
+        pre_fail(ctx, "no chain blocks to put into the blocks directory of the lite-block route");
+        return out;
+    }
+    let file_name = |b: &Block| format!("{}-{}.sai", b.timestamp, hex::encode(b.hash));
+    for b in &stored {
+        std::fs::write(format!("{}{}", dir, file_name(b)), b.serialize_for_net(BlockType::Full)).unwrap();
+    }
+    // a file that is not a block, and a block file that does not decode (golden ticket payload)
+    let garbage_hash = hex::encode(hash(b"garbage"));
+    std::fs::write(format!("{}77-{}.sai", dir, garbage_hash), vec![7u8; 500]).unwrap();
+    let mut bad_gt = {
+        let mut rr = Rng::new(99);
+        synthetic_block(&mut rr, 0).0
+    };
+    {
+        let mut t = Transaction::default();
+        t.transaction_type = TransactionType::GoldenTicket;
+        t.data = vec![1, 2, 3, 4, 5];
+        t.sign(&node.sk);
+        bad_gt.transactions.push(t);
+        bad_gt.hash = hash(b"bad golden ticket block");
+        std::fs::write(format!("{}{}", dir, file_name(&bad_gt)), bad_gt.serialize_for_net(BlockType::Full)).unwrap();
+    }
+    // something without the extension
+    std::fs::write(format!("{}{}.tmp", dir, hex::encode(stored[0].hash)), b"x").unwrap();
+    *lite_route::DIR.lock().unwrap() = dir.clone();
+
+    // peers: requester tk[0] follows [tk[1], fk[2]]; requester fk[3] follows nothing; tk[4] has a
+    // dangling address entry
+    let mut peers = PeerCollection::default();
+    let mut p1 = Peer::new(1);
+    p1.public_key = Some(tk[0].0);
+    p1.key_list = vec![tk[1].0, fk[2].0];
+    peers.index_to_peers.insert(1, p1);
+    peers.address_to_peers.insert(tk[0].0, 1);
+    let mut p2 = Peer::new(2);
+    p2.public_key = Some(fk[3].0);
+    peers.index_to_peers.insert(2, p2);
+    peers.address_to_peers.insert(fk[3].0, 2);
+    peers.address_to_peers.insert(tk[4].0, 9);
+    let peers_model = {
+        let a = ctx.sym.id(&tk[0].0);
+        let b = ctx.sym.id(&fk[3].0);
+        let kl: Vec<u64> = vec![ctx.sym.id(&tk[1].0), ctx.sym.id(&fk[2].0)];
+        format!("[({}, {}); ({}, [])]", a, gal::nlist(&kl), b)
+    };
+    let peer_lock = Arc::new(RwLock::new(peers));
+    let own = ctx.sym.id(&node.pk);
+
+    // key segments
+    let mut keys: Vec<(Option<String>, &str)> = vec![(None, "missing"), (Some(String::new()), "empty")];
+    for k in [tk[0].0, tk[1].0, fk[3].0, tk[4].0, fk[2].0, node.pk] {
+        keys.push((Some(k.to_hex()), "hex"));
+        keys.push((Some(k.to_base58()), "base58"));
+    }
+    keys.push((Some(tk[2].0.to_hex().to_uppercase()), "hex uppercase"));
+    keys.push((Some("zz".repeat(33)), "66 characters, not hex"));
+    keys.push((Some(hex::encode(&tk[0].0[0..32])), "hex of 32 bytes"));
+    keys.push((Some(hex::encode(&tk[0].0) + "00"), "hex of 34 bytes"));
+    keys.push((Some(bs58_of(&tk[0].0[0..32])), "base58 of 32 bytes"));
+    keys.push((Some("0OIl".to_string()), "not base58"));
+    // hash segments: (string, the block it selects if any)
+    let mut hashes: Vec<(String, Option<&Block>, &str)> = vec![];
+    for b in &stored {
+        hashes.push((hex::encode(b.hash), Some(*b), "hash of a stored block"));
+    }
+    hashes.push((hex::encode(hash(b"unknown")), None, "unknown hash"));
+    hashes.push((garbage_hash.clone(), None, "file that is not a block"));
+    hashes.push((hex::encode(bad_gt.hash), Some(&bad_gt), "block file with a 5-byte golden ticket payload"));
+    hashes.push((format!("{}-{}", stored[1].timestamp, &hex::encode(stored[1].hash)[0..20]), Some(stored[1]), "timestamp and hash prefix of a stored block"));
+
+    let mut combos: Vec<(usize, usize)> = vec![];
+    for ki in 0..keys.len() {
+        for hi in 0..hashes.len() {
+            if hi < 2 || ki < 4 || rng.chance(1, 3) {
+                combos.push((ki, hi));
+            }
+        }
+    }
+    for (ki, hi) in combos {
+        let case = first_case + out.len();
+        let (key, kname) = &keys[ki];
+        let (hs, sel, hname) = &hashes[hi];
+        let fut = lite_route::lite_route_body(hs.clone(), key.clone(), peer_lock.clone(), node.pk);
+        let res = match tokio::spawn(fut).await {
+            Ok(r) => r,
+            Err(_) => {
+                let _ = panic_site();
+                Ok(lite_route::warp::reply::Reply { body: vec![], status: 599 })
+            }
+        };
+        // model input
+        let k_lit = match key {
+            None => "KMissing".to_string(),
+            Some(sg) => {
+                let hx = SaitoPublicKey::from_hex(sg).ok().map(|k| ctx.sym.id(&k));
+                let b58 = SaitoPublicKey::from_base58(sg).ok().map(|k| ctx.sym.id(&k));
+                format!("(KStr {} {} {})", sg.len(), opt_n(hx), opt_n(b58))
+            }
+        };
+        let file_lit = match sel {
+            None => "None".to_string(),
+            Some(b) => {
+                // the block as the route reads it: decoded from the stored bytes (for the file that
+                // does not decode, the block it was serialised from)
+                let disk = Block::deserialize_from_net(&b.serialize_for_net(BlockType::Full)).unwrap_or_else(|_| (*b).clone());
+                ctx.prepare_block(&disk);
+                format!("(Some {})", ctx.sym.block_lit(&disk))
+            }
+        };
+        // observation
+        let (o_lit, o_short) = match &res {
+            Err(Rejection::Reject) => ("RReject".to_string(), "reject".to_string()),
+            Err(Rejection::NotFound) => ("RNotFound".to_string(), "not found".to_string()),
+            Ok(r) if r.status == 599 => ("(RServed (Panic 9999))".to_string(), "panic".to_string()),
+            Ok(r) => match Block::deserialize_from_net(&r.body) {
+                Ok(bk) => {
+                    ctx.prepare_block(&bk);
+                    (format!("(RServed (Ok {}))", ctx.sym.block_lit(&bk)), format!("served {} bytes, status {}", r.body.len(), r.status))
+                }
+                Err(_) => ("(RServed Err)".to_string(), "served bytes that do not decode".to_string()),
+            },
+        };
+        out.push(format!("(({}, {}, {}, {}), {})", own, k_lit, peers_model, file_lit, o_lit));
+        let desc = format!(
+            "{{\"case\":{},\"kind\":\"route\",\"key_segment\":{},\"key_kind\":{},\"hash_segment\":{},\"hash_kind\":{},\"result\":{}}}",
+            case,
+            match key {
+                Some(k) => jstr(k),
+                None => "null".to_string(),
+            },
+            jstr(kname),
+            jstr(hs),
+            jstr(hname),
+            jstr(&o_short)
+        );
+        ctx.summary.count("kind", "route");
+        ctx.summary.count("route_result", o_short.split(' ').next().unwrap_or(""));
+        // direct oracle: what is served for (hash of a stored block, decodable key) is that block's
+        // projection: status 200, same identity after the client's generate, every transaction of
+        // the block that touches the requester's key present in full
+        if let (Some(b), Ok(r)) = (sel, &res) {
+            let requester: Option<SaitoPublicKey> = match key {
+                Some(sg) if sg.is_empty() => Some(node.pk),
+                Some(sg) if sg.len() == 66 => SaitoPublicKey::from_hex(sg).ok(),
+                Some(sg) => SaitoPublicKey::from_base58(sg).ok(),
+                None => None,
+            };
+            if r.status != 200 {
+                ctx.summary.oracle_failure(case, &format!("route answers with status {}", r.status), &desc);
+            }
+            match Block::deserialize_from_net(&r.body) {
+                Ok(mut c) => {
+                    if c.generate().is_err() || c.hash != b.hash || c.id != b.id || c.signature != b.signature {
+                        ctx.summary.oracle_failure(case, "the block served by the route does not have the identity (id, hash, signature) of the stored block after the client's generate", &desc);
+                    }
+                    if let Some(rk) = requester {
+                        for t in &b.transactions {
+                            if touches(t, &[rk]) && !c.transactions.iter().any(|x| x.serialize_for_net() == t.serialize_for_net()) {
+                                ctx.summary.oracle_failure(case, "a transaction touching the requester's key is missing from the block served by the route", &desc);
+                                break;
+                            }
+                        }
+                    }
+                }
+                Err(_) => ctx.summary.oracle_failure(case, "the route serves bytes that do not decode", &desc),
+            }
+        }
+        if let (Some(b), Err(_)) = (sel, &res) {
+            let decodable_key = match key {
+                Some(sg) if sg.is_empty() => true,
+                Some(sg) if sg.len() == 66 => SaitoPublicKey::from_hex(sg).is_ok(),
+                Some(sg) => SaitoPublicKey::from_base58(sg).is_ok(),
+                None => false,
+            };
+            if decodable_key && Block::deserialize_from_net(&b.serialize_for_net(BlockType::Full)).is_ok() {
+                ctx.summary.oracle_failure(case, "the route refuses a stored block to a requester with a well-formed key", &desc);
+            }
+        }
+        if out.len() % 37 == 3 && ctx.summary.samples.len() < 8 {
+            ctx.summary.samples.push(desc.clone());
+        }
+        ctx.summary.case_descs.push(desc);
+    }
+    let _ = fk;
+    out
+}
+
+fn bs58_of(bytes: &[u8]) -> String {
+    // base58 text of arbitrary bytes through the real implementation: pad to a hash
+    use saito_core::core::defs::PrintForLog;
+    let mut h = [0u8; 32];
+    h.copy_from_slice(&bytes[0..32]);
+    let h: saito_core::core::defs::SaitoHash = h;
+    h.to_base58()
+}
+
+/// something the generators rely on did not hold on this tree (a block could not be built, was not
+/// accepted, does not survive its own serialisation ...): reported with a description instead of
+/// crashing the harness
+fn pre_fail(ctx: &mut Ctx, what: &str) {
+    let case = ctx.coq_cases.len();
+    let desc = format!("{{\"case\":{},\"kind\":\"generator precondition\",\"what\":{}}}", case, jstr(what));
+    ctx.summary.oracle_failure(case, &format!("generator precondition: {}", what), &desc);
 }
 
 fn fake_key(i: u8) -> SaitoPublicKey {
@@ -1010,11 +1326,28 @@ async fn main() {
         assert!(next_out[j] <= need[j]);
         i
     };
-    let g = make_genesis(&node, 1000, &iss).await.expect("genesis");
-    assert_eq!(node.add_block(g.clone()).await, AddClass::OnChain);
-    let mut parent = g.clone();
+    let ck: Vec<SaitoPublicKey> = (0..3).map(|j| keypair(60 + j as u8).0).collect();
     let mut blocks: Vec<(String, Block)> = vec![];
-    for n in 0..=max_n {
+    let g = match make_genesis(&node, 1000, &iss).await {
+        Ok(g) => g,
+        Err(e) => {
+            pre_fail(&mut ctx, &format!("the genesis block cannot be built: {}", e));
+            Block::new()
+        }
+    };
+    let mut chain_ok = !g.transactions.is_empty();
+    if chain_ok {
+        let r = node.add_block(g.clone()).await;
+        if r != AddClass::OnChain {
+            pre_fail(&mut ctx, &format!("the genesis block is not accepted: {:?}", r));
+            chain_ok = false;
+        }
+    }
+    let mut parent = g.clone();
+    for n in 0..=(if chain_ok { max_n } else { 0 }) {
+        if !chain_ok {
+            break;
+        }
         for gt in [false, true] {
             let ts = parent.timestamp + 120_000;
             let mut txs = vec![];
@@ -1023,11 +1356,19 @@ async fn main() {
                 let fee = 1000 + 10 * j as u64;
                 txs.push(make_tx(&inp[0..1], &[(tk[j].0, inp[0].amount - fee)], &fk[j].1, ts));
             }
-            let b = make_block(&node, parent.hash, ts, txs, gt, 7 + n as u64).await.expect("block");
+            let b = match make_block(&node, parent.hash, ts, txs, gt, 7 + n as u64).await {
+                Ok(b) => b,
+                Err(e) => {
+                    pre_fail(&mut ctx, &format!("block with {} transfers, golden ticket {} cannot be built: {}", n, gt, e));
+                    continue;
+                }
+            };
             let r = node.add_block(b.clone()).await;
             ctx.summary.count("chain_block_added", &format!("{:?}", r));
             // an empty block is not valid on chain; it is still a block the route could be asked for
-            assert!(r == AddClass::OnChain || (n == 0 && !gt), "block n={} gt={} -> {:?}", n, gt, r);
+            if !(r == AddClass::OnChain || (n == 0 && !gt)) {
+                pre_fail(&mut ctx, &format!("block with {} transfers, golden ticket {} is not accepted on the chain: {:?}", n, gt, r));
+            }
             if r == AddClass::OnChain {
                 parent = b.clone();
             }
@@ -1035,7 +1376,7 @@ async fn main() {
         }
     }
     // accepted block with a normal transaction whose txs_replacements is 2
-    {
+    if chain_ok {
         let ts = parent.timestamp + 120_000;
         let mut txs = vec![];
         for j in 0..3 {
@@ -1047,8 +1388,8 @@ async fn main() {
             }
             txs.push(tx);
         }
-        let b = make_block(&node, parent.hash, ts, txs, false, 3).await.expect("block");
-        let r = node.add_block(b.clone()).await;
+        let b = make_block(&node, parent.hash, ts, txs, false, 3).await.unwrap_or_else(|_| Block::new());
+        let r = if b.transactions.is_empty() { AddClass::Invalid } else { node.add_block(b.clone()).await };
         ctx.summary.count("replacements2_block_added", &format!("{:?}", r));
         if r == AddClass::OnChain {
             parent = b.clone();
@@ -1057,26 +1398,52 @@ async fn main() {
             ctx.summary.notes.push("block with txs_replacements=2 was not accepted; class replacements-gt-1 not exercised on a chain block".to_string());
         }
     }
+    // accepted block whose transfers have two outputs each: the second output goes to a key that
+    // appears nowhere else, and the key lists name only those keys
+    if chain_ok {
+        let ts = parent.timestamp + 120_000;
+        let mut txs = vec![];
+        for j in 0..3 {
+            let inp = outputs_of(&g, take(j));
+            let half = (inp[0].amount - 1000) / 2;
+            txs.push(make_tx(&inp[0..1], &[(tk[j].0, half), (ck[j], inp[0].amount - 1000 - half)], &fk[j].1, ts));
+        }
+        match make_block(&node, parent.hash, ts, txs, false, 3).await {
+            Ok(b) => {
+                let r = node.add_block(b.clone()).await;
+                ctx.summary.count("two_output_block_added", &format!("{:?}", r));
+                if r == AddClass::OnChain {
+                    parent = b.clone();
+                    blocks.push(("accepted block, transfers with two outputs (listed through the second)".to_string(), b));
+                } else {
+                    pre_fail(&mut ctx, &format!("block of two-output transfers is not accepted: {:?}", r));
+                }
+            }
+            Err(e) => pre_fail(&mut ctx, &format!("block of two-output transfers cannot be built: {}", e)),
+        }
+    }
     // block whose transactions were reordered after signing (merkle root stale): accepted by the
     // pinned tree (C06 defect), rejected since fix 22133df
     let mut stale_unaccepted: Option<Block> = None;
-    {
+    if chain_ok {
         let ts = parent.timestamp + 120_000;
         let mut txs = vec![];
         for j in 0..3 {
             let inp = outputs_of(&g, take(j));
             txs.push(make_tx(&inp[0..1], &[(tk[j].0, inp[0].amount - 1000)], &fk[j].1, ts));
         }
-        let mut b = make_block(&node, parent.hash, ts, txs, false, 3).await.expect("block");
-        b.transactions.swap(0, 1);
-        b.generate().expect("generate");
-        let r = node.add_block(b.clone()).await;
+        let mut b = make_block(&node, parent.hash, ts, txs, false, 3).await.unwrap_or_else(|_| Block::new());
+        if b.transactions.len() >= 2 {
+            b.transactions.swap(0, 1);
+        }
+        let gen_ok = b.generate().is_ok() && !b.transactions.is_empty();
+        let r = if gen_ok { node.add_block(b.clone()).await } else { AddClass::Invalid };
         ctx.summary.count("stale_root_block_added", &format!("{:?}", r));
         if r == AddClass::OnChain {
             // regression of the repaired Block::validate (fix 22133df): C18's header statement then
             // fails on a chain block; the oracle reports it under the unlisted id stale-merkle-root
             blocks.push(("accepted block, transactions swapped after signing (stale merkle root)".to_string(), b));
-        } else {
+        } else if gen_ok {
             // rejected by validation; generate_lite_block on it is still compared with the model
             stale_unaccepted = Some(b);
         }
@@ -1086,16 +1453,25 @@ async fn main() {
     for (name, stored) in &blocks {
         // the route: read from disk, deserialize, generate
         let bytes = stored.serialize_for_net(BlockType::Full);
-        let mut full = Block::deserialize_from_net(&bytes).expect("deserialize");
-        full.generate().expect("generate");
-        assert_eq!(full.hash, stored.hash);
+        let mut full = match Block::deserialize_from_net(&bytes) {
+            Ok(f) => f,
+            Err(_) => {
+                pre_fail(&mut ctx, &format!("{}: the stored block does not decode from its own serialize_for_net bytes", name));
+                continue;
+            }
+        };
+        if full.generate().is_err() || full.hash != stored.hash {
+            pre_fail(&mut ctx, &format!("{}: the block read back from its bytes does not generate to the stored block's hash", name));
+            continue;
+        }
+        let second_output_only = name.contains("two outputs");
         // transfers in block order: (index, j)
         let transfers: Vec<(usize, usize)> = full
             .transactions
             .iter()
             .enumerate()
             .filter(|(_, t)| t.transaction_type == TransactionType::Normal)
-            .map(|(i, t)| (i, tk.iter().position(|k| k.0 == t.to[0].public_key).expect("transfer key")))
+            .filter_map(|(i, t)| tk.iter().position(|k| !t.to.is_empty() && k.0 == t.to[0].public_key).map(|j| (i, j)))
             .collect();
         let m = transfers.len();
         let has_special = full.transactions.len() > m;
@@ -1107,6 +1483,10 @@ async fn main() {
                 for (bit, (_, j)) in transfers.iter().enumerate() {
                     if mask & (1 << bit) != 0 {
                         // relevant through the output key, the input key, or both
+                        if second_output_only {
+                            ks.push(ck[*j]);
+                            continue;
+                        }
                         match rng.below(3) {
                             0 => ks.push(tk[*j].0),
                             1 => ks.push(fk[*j].0),
@@ -1141,7 +1521,10 @@ async fn main() {
             continue;
         }
         let bytes = stored.serialize_for_net(BlockType::Full);
-        let mut full = Block::deserialize_from_net(&bytes).expect("deserialize");
+        let mut full = match Block::deserialize_from_net(&bytes) {
+            Ok(f) => f,
+            Err(_) => continue, // reported in the loop above
+        };
         let base = rng.range(1_000, 900_000);
         let mut k = 0u64;
         let mut next = || {
@@ -1174,7 +1557,10 @@ async fn main() {
         full.burnfee = next();
         full.difficulty = next();
         full.previous_block_unpaid = next();
-        full.generate().expect("generate");
+        if full.generate().is_err() {
+            pre_fail(&mut ctx, &format!("{}: generate fails after the header values were replaced", name));
+            continue;
+        }
         let nm = format!("{} with distinct header values from {}", name, base);
         let first_to: Vec<SaitoPublicKey> = full
             .transactions
@@ -1192,19 +1578,34 @@ async fn main() {
         }
     }
 
+    // ------------------------------------------------------------ pruned chain blocks
+    // a stored block whose transactions were dropped (BlockType::Pruned keeps the header): the lite
+    // block must keep the header's merkle root (generate_merkle_root(true, true) returns the field)
+    for (bi, (name, stored)) in blocks.iter().enumerate() {
+        if !(name.starts_with("chain") && (bi == 5 || bi == 8 || bi == 11)) {
+            continue;
+        }
+        let mut full = stored.clone();
+        full.transactions.clear();
+        full.block_type = BlockType::Pruned;
+        for ks in [vec![], vec![node.pk, tk[0].0]] {
+            ctx.run("chain-pruned", &format!("{} pruned of its transactions", name), &full, &ks, true);
+        }
+    }
+
     if let Some(stored) = &stale_unaccepted {
         let mut full = stored.clone();
-        full.generate().expect("generate");
+        let _ = full.generate();
         for ks in [vec![], vec![tk[0].0], vec![tk[0].0, fk[1].0, tk[2].0]] {
             ctx.run("stale-root-unaccepted", "rejected block with stale merkle root", &full, &ks, false);
         }
     }
 
     // ------------------------------------------------------------ lite blocks as input (lite of lite)
-    {
+    if !blocks.is_empty() {
         let (_, stored) = &blocks[9.min(blocks.len() - 1)];
         let mut full = stored.clone();
-        full.generate().expect("generate");
+        let _ = full.generate();
         for ks in [vec![], vec![tk[0].0], vec![tk[1].0, tk[2].0], vec![node.pk]] {
             let l1 = full.generate_lite_block(ks.clone());
             if let Some(c) = wire_trip(&l1) {
@@ -1232,6 +1633,7 @@ async fn main() {
     // that site of the model is not exercised here)
 
     // ------------------------------------------------------------ output
+    let route_cases = route_cases(&mut ctx, &args, &blocks, &node, &tk, &fk, &mut rng).await;
     let mut summary = ctx.summary;
     summary.evaluations = ctx.coq_cases.len() as u64;
     let check_def = "(* merkle.rs panic sites are not told apart by the harness *)\n\
@@ -1250,8 +1652,25 @@ async fn main() {
         "block * list N * obs",
         &ctx.coq_cases,
         args.shards,
+        0,
     )
     .unwrap();
+    let route_files = write_shards_with_defs(
+        &format!("{}/cases", args.out),
+        "C18R",
+        "From Saito Require Import Base Merkle Lite.\nOpen Scope N_scope.",
+        &ctx.sym.defs,
+        "Definition check (c : (N * key_arg * list (N * list N) * option block) * route_out) : bool :=\n  \
+           let '((own, k, peers, file), o) := c in route_out_eqb (route own k peers file) o.",
+        "(N * key_arg * list (N * list N) * option block) * route_out",
+        &route_cases,
+        2,
+        ctx.coq_cases.len(),
+    )
+    .unwrap();
+    let mut files = files;
+    files.extend(route_files);
+    summary.evaluations += route_cases.len() as u64;
     summary.case_files = files;
     summary.write(&args.out);
 }
